@@ -108,7 +108,7 @@ func tier(run *vf.Run) tierCfg {
 				bs(3, 1024, 2, true, false),
 				bs(4, rot[(r+3)%len(rot)], 0, false, true),
 			},
-			every: 16384, sample: 1500, maxFrames: 0, chunk: 400,
+			every: 8192, sample: 1200, maxFrames: 0, chunk: 400,
 			schedsPer: 120, groupSize: 6, groupsPer: 2, integPages: 6,
 		}
 	}
@@ -544,6 +544,9 @@ func startGrandchild(self string, run *vf.Run, specFile, errPath string) (*grand
 	defer ef.Close()
 	cmd := exec.Command(self, "worker", "C10", run.Tier, strconv.FormatInt(run.Seed, 10), specFile, run.Scratch)
 	cmd.Stderr = ef
+	// Restore is a two-goroutine pipeline; on a host that runs 16 workers plus
+	// other jobs a 16-P runtime per grandchild only burns time in the scheduler
+	cmd.Env = append(os.Environ(), "GOMAXPROCS=2")
 	stdin, err := cmd.StdinPipe()
 	if err != nil {
 		return nil, err
